@@ -846,7 +846,7 @@ fn main() {
     driver::main(CheckDef {
         prop: "C01",
         level: "model_checking",
-        rule: "every well-formed program of at most N steps over {g = set_default_local_recorder(r), drop(g) of any live guard in any order, mem::forget(g), with_local_recorder(r, || ..) entered / left normally / left by a caught panic} with 2-3 recorder doubles, closure nesting <= 2-3, at most 3 guards, run on the real thread-local recorder; after every step a counter!, gauge!, histogram! and describe_counter! probe must each reach exactly the innermost live scope's recorder (else the global, else nobody) exactly once and never a recorder none of whose borrows is alive; once without and once with a global recorder (separate processes); all pairs of <= 3-step programs on two threads in lock-step; a catalogue of every macro arm (15 forms x 3 kinds + 4 describe forms x 3) with independently written expected name/labels/level/target/module path/unit/description; distinct = distinct (signature, step) / program shapes",
+        rule: "every well-formed program of at most N steps over {g = set_default_local_recorder(r), drop(g) of any live guard in any order, mem::forget(g), with_local_recorder(r, || ..) entered / left normally / left by a caught panic} with 2-3 recorder doubles, closure nesting <= 2-3, at most 3 guards, run on the real thread-local recorder; after every step a counter!, gauge!, histogram! and describe_counter! probe must each reach exactly the innermost live scope's recorder (else the global, else nobody) exactly once and never a recorder none of whose borrows is alive; once without and once with a global recorder (separate processes); all pairs of <= 3-step programs on two threads in lock-step; a catalogue of every macro arm (15 forms x 3 kinds + 4 describe forms x 3) with independently written expected name/labels/level/target/module path/unit/description; distinct = distinct (signature, step) / program shapes; describe forms with an empty description (with and without a unit) and an empty metric name",
         assumptions: &["recorder doubles are leaked, so a dispatch to a recorder whose borrow ended is observed instead of being undefined behaviour", "a panic leaving a closure drops the guards created inside it (as locals) innermost first; on normal exit such guards are considered moved out"],
         parts,
         run,
